@@ -19,10 +19,15 @@ const (
 	KPanic
 	KMarshalPanic // the value is produced, but serialising it panics (custom scalar only)
 	KAddErrNull   // the resolver records an error with graphql.AddError and returns nil, nil
+	// context-aware marshaler (scalar Cx) that returns an error: before writing anything
+	// (the value is null, one error at its path) / after writing half of its output (the
+	// response as a whole cannot be serialised)
+	KCtxMarshalErr
+	KCtxMarshalPartial
 )
 
 func (k Kind) String() string {
-	return [...]string{"value", "null", "error", "panic", "marshal-panic", "adderror-null"}[k]
+	return [...]string{"value", "null", "error", "panic", "marshal-panic", "adderror-null", "ctx-marshal-error", "ctx-marshal-partial"}[k]
 }
 
 // DirKind is what the @guard directive does at a position.
@@ -73,7 +78,7 @@ func (p *Plan) Resolver(path string, nilable bool) Kind {
 		if (k == KNull || k == KAddErrNull) && !nilable {
 			return KValue
 		}
-		if k == KMarshalPanic {
+		if k == KMarshalPanic || k == KCtxMarshalErr || k == KCtxMarshalPartial {
 			return KValue
 		}
 		return k
@@ -159,6 +164,14 @@ func (p *Plan) Scalar(key, typeName string) *parsers.J {
 		return parsers.NewBool(x%2 == 0)
 	case "ID":
 		return parsers.NewStr(fmt.Sprintf("id-%s", key))
+	case "Cx":
+		switch p.Faults[key] {
+		case KCtxMarshalErr:
+			return parsers.NewStr("CTXM_ERR-" + key)
+		case KCtxMarshalPartial:
+			return parsers.NewStr("CTXM_PARTIAL-" + key)
+		}
+		return parsers.NewStr(fmt.Sprintf("cx-%s-%d", key, x%97))
 	case "Tone":
 		if p.TagPanics(key) {
 			return parsers.NewStr("MARSHAL_PANIC-" + key)
